@@ -1,1 +1,4 @@
 pub mod rck;
+pub mod rdec;
+pub mod rgen;
+pub mod rgzh;
